@@ -19,7 +19,7 @@ def one(patch):
         shutil.rmtree(tmp, ignore_errors=True)
     return patch, res
 root = sys.argv[1]
-patches = sorted(glob.glob(os.path.join(root, '*', 'b*', 'patch.diff')) + glob.glob(os.path.join(root, 'b*', 'patch.diff')) + glob.glob(os.path.join(root, 'C*-b*', 'patch.diff')))
+patches = sorted(glob.glob(os.path.join(root, '*', 'b*', 'patch.diff')) + glob.glob(os.path.join(root, 'b*', 'patch.diff')) + glob.glob(os.path.join(root, 'C*-*b[0-9]*', 'patch.diff')))
 fa = und = 0
 with cf.ThreadPoolExecutor(12) as ex:
     for patch, res in ex.map(one, patches):
